@@ -657,6 +657,24 @@ void run(Src &src, Case &c)
     }
     c.cls("type:" + type1);
 
+    // Input class of a listed finding: a marked variable that keeps its defining equation, and that equation reads
+    // (directly or through other equations) a class without definition. Both are unknown when the analyser promotes
+    // "unknown externals" to initialised variables, and the equation is then taken for an NLA equation.
+    for (int m : M) {
+        const GtClass &mc = gt.classes[static_cast<size_t>(m)];
+        if (std::find(U.begin(), U.end(), m) != U.end() || (mc.role != GtRole::COMPUTED_CONSTANT && mc.role != GtRole::ALGEBRAIC && mc.role != GtRole::NLA)) {
+            continue;
+        }
+        for (int u : U) {
+            if (dep[static_cast<size_t>(m)][static_cast<size_t>(u)]) {
+                sigNote = "|external-equation-reads-unknown";
+            }
+        }
+    }
+    if (!sigNote.empty()) {
+        c.cls("external-equation-reads-unknown");
+    }
+
     // (4) messages
     for (size_t i = 0; i < analyser->issueCount(); ++i) {
         auto is = analyser->issue(i);
@@ -705,24 +723,6 @@ void run(Src &src, Case &c)
                 return;
             }
         }
-    }
-
-    // Input class of a listed finding: a marked variable that keeps its defining equation, and that equation reads
-    // (directly or through other equations) a class without definition. Both are unknown when the analyser promotes
-    // "unknown externals" to initialised variables, and the equation is then taken for an NLA equation.
-    for (int m : M) {
-        const GtClass &mc = gt.classes[static_cast<size_t>(m)];
-        if (std::find(U.begin(), U.end(), m) != U.end() || (mc.role != GtRole::COMPUTED_CONSTANT && mc.role != GtRole::ALGEBRAIC && mc.role != GtRole::NLA)) {
-            continue;
-        }
-        for (int u : U) {
-            if (dep[static_cast<size_t>(m)][static_cast<size_t>(u)]) {
-                sigNote = "|external-equation-reads-unknown";
-            }
-        }
-    }
-    if (!sigNote.empty()) {
-        c.cls("external-equation-reads-unknown");
     }
 
     // (3) validity
